@@ -385,8 +385,13 @@ impl RenameAttr {
 impl FromStr for RenamePattern {
     type Err = Infallible;
     fn from_str(s: &str) -> Result<Self, Infallible> {
-        if let Some(index) = s.find("{0}") {
-            let replacement = format!("{}{}", &s[..index], &s[index + 3..]);
+        // `{0}` and (as in the book's example) `{}` both mark the insertion point
+        let placeholder = s
+            .find("{0}")
+            .map(|index| (index, 3))
+            .or_else(|| s.find("{}").map(|index| (index, 2)));
+        if let Some((index, len)) = placeholder {
+            let replacement = format!("{}{}", &s[..index], &s[index + len..]);
             Ok(Self {
                 replacement,
                 insertion_index: Some(index),
